@@ -25,8 +25,15 @@ package rueidislock
 //	                          failed extension without anybody asking for a release; another Locker's script took them)
 //	R3 loss-not-noticed       a live holder owns fewer than KeyMajority keys for longer than
 //	                          KeyValidity + ExtendInterval + (KeyValidity/2 + 1 s) of fake time
-//	R4 waiter-never-acquired  the run ends idle (only time could pass) with a WithContext call still waiting although its
-//	                          context was never cancelled, nobody holds the name and a majority of its keys is free
+//	R4 waiter-*               the run ends idle (only time could pass) with a WithContext call still waiting although its
+//	                          context was never cancelled, nobody holds the name and a majority of its keys is free;
+//	                          sub-rules by cause: waiter-asleep-after-own-failure, waiter-not-woken-by-same-locker-release-
+//	                          under-noloop, waiter-stranded-behind-failed-attempt (consequence of the two), waiter-missed-wakeup
+//
+// Variants: "" (main), "force" (ForceWithContext mixed in), "trynext" (default TryNextAfter, clean plans) are parts of
+// the check. "optout" (default tracking, no fake time), "maj1" (KeyMajority 1) and "giveup" (directed at
+// gave-up-keys-while-live) are exploratory only: lock.go's selects and counters make their runs depend on the Go
+// runtime (see checks.py, assumptions), so they are not reproducible run by run.
 
 import (
 	"context"
@@ -110,6 +117,9 @@ func genLock(seed uint64, tier, variant string) any {
 	// while try() is still about to increment it (lock.go: acquire() starts the monitor before its caller counts the
 	// failure), so whether the gate gets a spurious token and a second w-- is decided by the Go runtime, not by the seed
 	p.Majority = pick(r, 2, 2, 2, 3)
+	if variant == "maj1" {
+		p.Majority = 1 // exploratory only (not registered): runs are not reproducible, see above
+	}
 	if p.Timeless {
 		p.ValidityMs = 3_600_000
 		p.TryNextMs = 3_600_000
@@ -162,7 +172,26 @@ func genLock(seed uint64, tier, variant string) any {
 		}
 		p.Tasks = append(p.Tasks, ops)
 	}
-	if r.IntN(2) == 0 || variant == "trynext" {
+	if variant == "giveup" {
+		// directed at the window in monitoring(): holders whose context ends a few milliseconds after an extension timer
+		// (the extension then fails fast on a broken connection instead of being retried) plus connection faults that
+		// strike while traffic is in flight, which for an idle holder means: while it extends
+		step := p.ValidityMs / 2
+		if p.IntervalMs > 0 {
+			step = p.IntervalMs
+		}
+		for ti := range p.Tasks {
+			for oi := range p.Tasks[ti] {
+				op := &p.Tasks[ti][oi]
+				op.Kind, op.TimeoutMs, op.HoldMs = "try", step*(1+r.IntN(3))+3, 8*v
+			}
+		}
+		for i, n := 0, 2+r.IntN(3); i < n; i++ {
+			p.Faults = append(p.Faults, LockFault{Kind: pick(r, "reset", "eof", "reset-after-exec"), AtStep: 20 + r.IntN(300), Pick: r.IntN(8)})
+		}
+		return p
+	}
+	if r.IntN(2) == 0 || variant == "trynext" || variant == "maj1" {
 		return p // clean plan: no ghosts, no faults; every rule is strict
 	}
 	subset := func() []int {
@@ -633,7 +662,22 @@ func (m *lockMon) onStep(s *sched.Sim) error {
 		}
 		if h.doneStep < 0 && h.lockCtx.Err() != nil {
 			h.doneStep = s.Step
-			m.note("CTXDONE %s releaseStep=%d lost=%v(%s) owns=%d", m.describe(h), h.releaseStep, h.att.lost, h.att.lostWhy, m.owns(h))
+			if h.notOwning && h.releaseStep < 0 {
+				// how much of the allowance did the holder need to notice the loss?
+				switch d := now.Sub(h.notOwningAt); {
+				case d <= m.bound/10:
+					m.out.probe("loss-noticed-within-10%-of-the-bound")
+				case d <= m.bound/2:
+					m.out.probe("loss-noticed-within-50%-of-the-bound")
+				default:
+					m.out.probe("loss-noticed-within-100%-of-the-bound")
+				}
+			}
+			below := time.Duration(0)
+			if h.notOwning {
+				below = now.Sub(h.notOwningAt)
+			}
+			m.note("CTXDONE %s releaseStep=%d lost=%v(%s) owns=%d below-majority-for=%v bound=%v", m.describe(h), h.releaseStep, h.att.lost, h.att.lostWhy, m.owns(h), below, m.bound)
 			if h.releaseStep < 0 {
 				m.out.probe("lock-context-ended-before-release")
 				if h.att.lost {
